@@ -71,7 +71,7 @@ pub fn analysed_event(id: usize, n: usize, edges: &[(usize, usize)], merge: &str
 /// there - chordal, with a BRANCHING clique tree and many equal-sized separators
 pub fn ktree_graph(rng: &mut StdRng, n: usize) -> Vec<(usize, usize)> {
     let mut e = vec![];
-    let k = rng.gen_range(1..4usize).min(n - 1);
+    let k = rng.gen_range(1..9usize).min(n - 1);      // (wide cliques with wide overlaps are the ones the merge strategies act on)
     let mut cliques: Vec<Vec<usize>> = vec![(0..=k).collect()];
     for i in 0..=k { for j in (i + 1)..=k { e.push((i, j)); } }
     for v in (k + 1)..n {
